@@ -15,7 +15,7 @@ from idpyoidc.server.cookie_handler import CookieHandler
 from idpyoidc.server import user_info
 from idpyoidc.server.user_authn.authn_context import INTERNETPROTOCOLPASSWORD
 
-USERS = "/repo/tests/users.json"
+USERS = os.path.join(VERIF, "harness", "fixtures", "users.json")
 CRYPT_CONFIG = {"kwargs": {"keys": {"key_defs": [
     {"type": "OCT", "use": ["enc"], "kid": "password"},
     {"type": "OCT", "use": ["enc"], "kid": "salt"}]}, "iterations": 1}}
